@@ -199,20 +199,45 @@ def userCtx (c : Cfg) (s : State) (t : Nat) : Bool :=
 def TPc.tgt : TPc → Option (Nat × K)
   | .enq _ h k => some (h, k) | .inc h k => some (h, k) | .ldFlags h k => some (h, k)
   | .ldFutex h k => some (h, k) | .stFutex h k => some (h, k) | .wake h k => some (h, k)
-  | _ => none
+  | .idle => none | .ext => none | .sync => none | .sel _ => none
+  | .gdLd _ => none | .gdLock _ => none | .gdCreate _ => none | .gdUnlock _ => none
+  | .crRet => none | .opLock _ => none | .opDo _ => none | .opUnlock _ => none
+  | .fLdFlags _ => none | .fOrStop _ => none | .fWaitStopped _ => none | .fLock _ => none | .fChk _ => none
+  | .fUnlock1 _ => none | .fLock2 _ => none | .fSplice _ => none | .fAddQ _ => none | .fDel _ => none
+  | .fJoin _ => none | .fFree _ => none
 
 /-- the thread is inside a `call_rcu()` that operates on `h` -/
 def TPc.tgtUser (p : TPc) (h : Nat) : Bool := p.tgt == some (h, K.user)
+
+/-- the helper a locked operation is going to publish in the per-CPU array -/
+def LOp.pub : LOp → Option Nat
+  | .setCpu _ (some h) => some h
+  | .setCpu _ none => none
+  | .create _ => none | .createIfAbsent _ _ => none | .allocArr => none | .unsetDflt => none
+
+/-- the helper a thread inside `set_cpu_call_rcu_data(cpu, h)` is about to publish -/
+def TPc.publishing : TPc → Option Nat
+  | .opLock op => op.pub
+  | .opDo op => op.pub
+  | .idle => none | .ext => none | .sync => none | .sel _ => none
+  | .gdLd _ => none | .gdLock _ => none | .gdCreate _ => none | .gdUnlock _ => none
+  | .enq _ _ _ => none | .inc _ _ => none | .ldFlags _ _ => none | .ldFutex _ _ => none | .stFutex _ _ => none
+  | .wake _ _ => none | .crRet => none | .opUnlock _ => none
+  | .fLdFlags _ => none | .fOrStop _ => none | .fWaitStopped _ => none | .fLock _ => none | .fChk _ => none
+  | .fUnlock1 _ => none | .fLock2 _ => none | .fSplice _ => none | .fAddQ _ => none | .fDel _ => none
+  | .fJoin _ => none | .fFree _ => none
 
 /-- **Documented caller obligations of `call_rcu_data_free(h)`**: `h` has been removed from
 per-thread use (no thread other than the helper's own has it as its per-thread helper, nor is
 still inside a `call_rcu()` that picked it that way), it has been removed from the per-CPU array
 and a grace period has elapsed since ("The caller must wait for a grace-period to pass between
-return from set_cpu_call_rcu_data() and call to call_rcu_data_free()"), and it is not freed twice. -/
+return from set_cpu_call_rcu_data() and call to call_rcu_data_free()"), it is not freed twice, and no
+thread is in the middle of a `set_cpu_call_rcu_data(cpu, h)` that would publish it again. -/
 def FreeObl (c : Cfg) (s : State) (h : Nat) : Prop :=
   (∀ t', t' < nthr c s → t' ≠ c.n + h → s.thr t' ≠ some h ∧ ¬ ((s.tpc t').tgtUser h = true ∧ s.via t' = .thr)) ∧
   (∀ cpu, cpu < c.ncpu → s.percpu cpu ≠ some h) ∧
-  (s.unpubT h = 0 ∨ s.unpubT h < s.gpDone) ∧ s.retiring h = false
+  (s.unpubT h = 0 ∨ s.unpubT h < s.gpDone) ∧ s.retiring h = false ∧
+  (∀ t', t' < nthr c s → (s.tpc t').publishing ≠ some h)
 
 instance (c s h) : Decidable (FreeObl c s h) := by unfold FreeObl; infer_instance
 
